@@ -85,7 +85,7 @@ pub fn gen_clients(r: &mut Rng, n: usize, with_invalid: bool, max_reqs: usize) -
                 _ => reqs.push(Req::List),
             }
         }
-        clients.push(ClientProg { reqs, chunk_seed: r.next_u64(), magic: true, bye: r.coin() });
+        clients.push(ClientProg { reqs, chunk_seed: r.next_u64(), magic: true, bye: r.coin(), pipeline: false });
     }
     (init, clients)
 }
